@@ -297,4 +297,18 @@ example : run cur live [({ kind := .rd, onErr := .swallow }, { peer := .stall, m
 example : run cur live [(wr, { mid := some .canceled })] =
     ({ cancellable := true, err := some .canceled, closing := true, io := 1 }, .ctx .canceled) := by decide
 
+
+/-- **fact_tables_not_vacuous**: the regenerated tables `all_io_wrapped`, `ctx_threaded` and
+    `no_contextless_blocking` quantify over are inhabited and see what they are about — the
+    connection I/O table holds the two wrapped primitives (a read and a write), the table of uses of
+    the connection covers the stream's I/O fields, the scans visited at least 50 functions and 200
+    calls. A renamed field or a moved package therefore cannot make the inclusions hold by emptying
+    the tables (the generator also refuses to write an empty table). -/
+theorem fact_tables_not_vacuous :
+    CedarGen.FactsIO.connIO ≠ [] ∧ CedarGen.FactsIO.connUses ≠ [] ∧
+    (∃ x ∈ CedarGen.FactsIO.connIO, x.2.1 = "readWithContext") ∧
+    (∃ x ∈ CedarGen.FactsIO.connIO, x.2.1 = "writeWithContext") ∧
+    50 ≤ CedarGen.FactsIO.funcsScanned ∧ 50 ≤ CedarGen.FactsNoCtx.funcsScanned ∧ 200 ≤ CedarGen.FactsNoCtx.callsScanned := by
+  decide
+
 end Cedar.C19
